@@ -4,6 +4,7 @@ Command interpreter for the line protocol (see `Main.lean`).
 import P3R.Model.Runner
 import P3R.Model.RunnerShape
 import P3R.Model.Roles
+import P3R.Model.DefUse
 import P3R.Model.FusionCheck
 import P3R.Model.LowerCheck
 import P3R.Model.Order
@@ -199,7 +200,17 @@ def step (st : St) (line : String) : St × List String :=
       | "prep", [] =>
         match st.c with
         | none => (st, ["bad-op"])
-        | some c => (st, prepLines c)
+        | some c =>
+          -- def-before-use certificate (`Model/DefUse.lean`, hypothesis of
+          -- `P3R.C09T.compiled_bus_balanced_of_defuse`) of the compiled circuit, and of the two
+          -- earlier stages (lowering output, de-duplicated list); dropped from the line diff
+          let b (x : Bool) : Nat := if x then 1 else 0
+          let stages := match lower st.b with
+            | .error _ => "l=_ d=_"
+            | .ok l =>
+              let d := dedup l.ops
+              s!"l={b (defUse l.privRows.toList l.ops.toList)} d={b (defUse (l.privRows.toList.map (resolve d.2)) d.1.toList)}"
+          (st, prepLines c ++ [s!"defuse c={b c.defUse} {stages}"])
       | "sess", toks =>
         -- tokens: (1 n v1..vn | 0 n v1..vn)*   (1 = set_public_inputs, 0 = set_private_inputs)
         match st.c with
